@@ -122,7 +122,20 @@ fn cmd_seq(args: &[String]) {
         }
         for (step, f) in &run.failures {
             failures += 1;
-            println!("FOUND SEQ step={} {} || {}", step, f.replace('\n', " "), seq::case_text(&case));
+            let tag = if f.starts_with("memory:") || f.contains("was dead while") {
+                "C03"
+            } else if f.starts_with("ledger:") {
+                "C04"
+            } else if f.starts_with("lookup of key") {
+                "C06"
+            } else if f.contains("grew the table") || f.contains("table shrank") || f.contains("not a power of two") {
+                "C14"
+            } else if f.starts_with("structural defect") || f.contains("inspector's walk") {
+                "C05"
+            } else {
+                "C02"
+            };
+            println!("FOUND {} SEQ step={} {} || {}", tag, step, f.replace('\n', " "), seq::case_text(&case));
             break;
         }
         coq.push_str(&seq::case_coq(&format!("c{}", i), &run));
@@ -294,6 +307,217 @@ fn cmd_panic(args: &[String]) {
         json!({"injections": r.injections, "failures": r.failures.len(), "in_tree_bins": r.in_tree_bins,
                "in_list_bins": r.in_list_bins, "retain_injections": r.retain_injections, "samples": r.samples})
     );
+}
+
+fn load_site_fns(gen_json: &str) {
+    if let Ok(txt) = std::fs::read_to_string(gen_json) {
+        if let Ok(gen) = serde_json::from_str::<serde_json::Value>(&txt) {
+            let mut t = hooks::SITE_FNS.lock().unwrap();
+            for r in gen["fns"].as_array().unwrap_or(&vec![]) {
+                t.push((
+                    r["file"].as_str().unwrap_or("").to_string(),
+                    r["line"].as_u64().unwrap_or(0) as u32,
+                    r["name"].as_str().unwrap_or("").to_string(),
+                ));
+            }
+        }
+    }
+}
+
+/// directed race templates: scripts over function entries with enumerated step offsets
+fn cmd_directed(args: &[String]) {
+    // directed <gen.json> <max_offset>
+    use conc::*;
+    use hooks::{Cond, Policy, Verdict};
+    load_site_fns(&args[0]);
+    let max_off: u64 = args[1].parse().unwrap();
+    silence_panics();
+    hooks::install();
+    let mut runs = 0u64;
+    let mut found = 0u64;
+    let mut samples = Vec::new();
+    // template 1 (the race behind F5): a bin at the treeify threshold is drained between the
+    // insert that crossed it and its treeify_bin; the 1-node tree bin is then emptied while a
+    // third thread iterates
+    for cap in [64u64, 100] {
+        for off in 1..=max_off {
+            let prog = Program {
+                hasher: types::H_ZERO,
+                cap,
+                prefill: (0..8).collect(),
+                threads: vec![
+                    vec![COp::Insert(8, 80)],
+                    (0..9).map(COp::Remove).collect(),
+                    vec![COp::Iter, COp::Get(8), COp::ContainsKey(3)],
+                ],
+                universe: 10,
+                batch: 1,
+                pin: false,
+                linger: 0,
+            };
+            let script = vec![
+                (0, Cond::EntersFn("treeify_bin".into())),
+                (1, Cond::CompletedOps(8)),
+                (0, Cond::Done),
+                (1, Cond::Steps(off)),
+                (2, Cond::Done),
+            ];
+            let opts = RunOpts { policy: Policy::Directed(script, 0), step_limit: 200_000, freeze: None };
+            println!("AT directed template=treeify_race cap={} offset={} || {}", cap, off, program_text(&prog));
+            let r = with_hasher!(prog.hasher, S, { run_program::<S>(&prog, opts) });
+            runs += 1;
+            let mut fails = r.failures.clone();
+            match r.verdict {
+                Verdict::Deadlock => fails.push(format!("C11: deadlock: {}", r.statuses)),
+                Verdict::StepLimit => fails.push("C11: step limit exceeded".into()),
+                _ => {}
+            }
+            fails.extend(check_history(&prog, &r));
+            fails.extend(check_quiescent(&prog, &r));
+            fails.extend(check_iterators(&prog, &r));
+            if samples.len() < 2 {
+                samples.push(format!("treeify race, offset {}: {} steps, verdict {:?}", off, r.steps, r.verdict));
+            }
+            for f in fails.iter().take(1) {
+                found += 1;
+                let tag = if f.starts_with('C') { f[..3].to_string() } else { "C07".to_string() };
+                println!("FOUND {} directed template=treeify_race cap={} offset={} || {} || {}", tag, cap, off, f.replace('\n', " "), program_text(&prog));
+            }
+        }
+    }
+    // template 2: a reader inside a tree bin while a writer restructures it (lock_root contention)
+    for off in 1..=max_off {
+        let prog = Program {
+            hasher: types::H_ZERO,
+            cap: 64,
+            prefill: (0..12).collect(),
+            threads: vec![vec![COp::Get(11), COp::Get(0)], vec![COp::Remove(5), COp::Insert(20, 1), COp::Remove(2)], vec![COp::Get(3), COp::Iter]],
+            universe: 22,
+            batch: 1,
+            pin: false,
+            linger: 1,
+        };
+        let script = vec![
+            (0, Cond::EntersFn("find_tree_node".into())),
+            (1, Cond::EntersFn("contended_lock".into())),
+            (1, Cond::Steps(off)),
+            (0, Cond::Done),
+            (2, Cond::Steps(off)),
+        ];
+        let opts = RunOpts { policy: Policy::Directed(script, 0), step_limit: 200_000, freeze: None };
+        println!("AT directed template=tree_lock offset={} || {}", off, program_text(&prog));
+        let r = with_hasher!(prog.hasher, S, { run_program::<S>(&prog, opts) });
+        runs += 1;
+        let mut fails = r.failures.clone();
+        match r.verdict {
+            Verdict::Deadlock => fails.push(format!("C11: deadlock: {}", r.statuses)),
+            Verdict::StepLimit => fails.push("C11: step limit exceeded".into()),
+            _ => {}
+        }
+        fails.extend(check_history(&prog, &r));
+        fails.extend(check_quiescent(&prog, &r));
+        fails.extend(check_iterators(&prog, &r));
+        if r.parks > 0 && samples.len() < 4 {
+            samples.push(format!("tree lock contention, offset {}: writer parked {} time(s)", off, r.parks));
+        }
+        for f in fails.iter().take(1) {
+            found += 1;
+            let tag = if f.starts_with('C') { f[..3].to_string() } else { "C11".to_string() };
+            println!("FOUND {} directed template=tree_lock offset={} || {} || {}", tag, off, f.replace('\n', " "), program_text(&prog));
+        }
+    }
+    println!("JSON {}", json!({"runs": runs, "found": found, "samples": samples}));
+}
+
+fn cmd_trav(args: &[String]) {
+    // trav <seed> <max_k> <out.v>: iterate a table whose resize is suspended after k steps and
+    // print (forest, yielded sequence) pairs for the Coq traverser model
+    use conc::*;
+    use hooks::Policy;
+    let seed: u64 = args[0].parse().unwrap();
+    let max_k: u64 = args[1].parse().unwrap();
+    let stride: u64 = args.get(3).and_then(|x| x.parse().ok()).unwrap_or(4);
+    silence_panics();
+    hooks::install();
+    let mut rng = types::SplitMix64(seed ^ 0x7A7);
+    let mut coq = String::from("From Flurry Require Import Model.Trav Model.Check.\nImport ListNotations.\nDefinition kv (n : node) := (nk n, nv n).\nDefinition kv_eqb (a b : N * Z) := (N.eqb (fst a) (fst b) && Z.eqb (snd a) (snd b))%bool.\n");
+    let mut forests = 0u64;
+    let mut two_level = 0u64;
+    let mut found = 0u64;
+    let mut samples = Vec::new();
+    let scenarios: Vec<(u8, u64, u32)> = vec![
+        (types::H_IDENTITY, 8, 11),   // 16 bins, resize at 12
+        (types::H_MIX, 8, 11),
+        (types::H_IDENTITY, 32, 47),  // 64 bins, resize at 48
+        (types::H_MIX, 32, 47),
+        (types::H_HIGH, 32, 47),      // everything in bin 0: a tree bin that is split
+        (types::H_SAMEBIN, 32, 47),
+    ];
+    for (hasher, cap, fill) in &scenarios {
+        let mut k = 1 + rng.below(3);
+        while k <= max_k {
+            let prog = Program {
+                hasher: *hasher,
+                cap: *cap,
+                prefill: (0..*fill).collect(),
+                threads: vec![vec![COp::Insert(*fill, 7)], vec![COp::Iter]],
+                universe: fill + 2,
+                batch: 1,
+                pin: false,
+                linger: 0,
+            };
+            let opts = RunOpts { policy: Policy::Prefer(0), step_limit: 400_000, freeze: Some((0, k, 1)) };
+            let r = with_hasher!(*hasher, S, { run_program::<S>(&prog, opts) });
+            let writer_steps = *r.steps_of.get(0).unwrap_or(&0);
+            if let Some(d) = &r.frozen_dump {
+                let yielded: Vec<(u32, i64)> = r
+                    .calls
+                    .iter()
+                    .filter_map(|c| match &c.out { Res::Iterated(_, items) => Some(items.iter().map(|x| (x.1, x.2)).collect::<Vec<_>>()), _ => None })
+                    .next()
+                    .unwrap_or_default();
+                let tab = |t: &crate::dump::CTable| {
+                    format!(
+                        "expand {} [{}]",
+                        t.bins.len(),
+                        t.bins.iter().enumerate().filter(|(_, b)| !matches!(b, crate::dump::CBin::Empty)).map(|(i, b)| format!("B_ {} ({})", i, crate::dump::bin_coq(b))).collect::<Vec<_>>().join(";")
+                    )
+                };
+                if let Some(t0) = &d.table {
+                    let mut f = vec![tab(t0)];
+                    if let Some(t1) = &d.next {
+                        f.push(tab(t1));
+                        two_level += 1;
+                    }
+                    forests += 1;
+                    coq.push_str(&format!(
+                        "Eval vm_compute in (list_eqb kv_eqb (map kv (iterate [{}])) [{}]).\n",
+                        f.join("; "),
+                        yielded.iter().map(|(k, v)| format!("({}%N,{}%Z)", k, v)).collect::<Vec<_>>().join(";")
+                    ));
+                    if samples.len() < 3 && d.next.is_some() {
+                        let moved = t0.bins.iter().filter(|b| matches!(b, crate::dump::CBin::Moved)).count();
+                        samples.push(format!("hasher={} table {} bins ({} forwarded) + next table; writer suspended after {} steps; iterator yielded {} entries",
+                            types::HASHER_NAMES[*hasher as usize], t0.bins.len(), moved, k, yielded.len()));
+                    }
+                }
+            }
+            for f in r.failures.iter().filter(|f| f.starts_with("C07") || f.starts_with("panic")).take(1) {
+                found += 1;
+                println!("FOUND C07 resize suspended after {} steps || {} || {}", k, f, program_text(&prog));
+            }
+            for f in check_iterators(&prog, &r).iter().take(1) {
+                found += 1;
+                println!("FOUND C07 resize suspended after {} steps || {} || {}", k, f, program_text(&prog));
+            }
+            if writer_steps < k {
+                break;
+            }
+            k += 1 + rng.below(stride);
+        }
+    }
+    std::fs::write(&args[2], coq).expect("write");
+    println!("JSON {}", json!({"forests": forests, "two_level_forests": two_level, "found": found, "samples": samples}));
 }
 
 fn cmd_c12(args: &[String]) {
@@ -469,6 +693,8 @@ fn main() {
         "api" => cmd_api(&args[2..]),
         "seq" => cmd_seq(&args[2..]),
         "c12" => cmd_c12(&args[2..]),
+        "trav" => cmd_trav(&args[2..]),
+        "directed" => cmd_directed(&args[2..]),
         "atomics" => cmd_atomics(&args[2..]),
         "panic" => cmd_panic(&args[2..]),
         "bulk" => cmd_bulk(&args[2..]),
